@@ -66,7 +66,7 @@ prop(
 
 prop(
     "C09",
-    level_text="Theorems on the decoder model for every frame header, dictionary registry and buffer state: a frame naming an unregistered dictionary is refused with DictNotProvided before any block is decoded (missing_dict_error); with the dictionary registered reset seeds exactly entropy tables, repeat offsets and content (init_from_dict_state); a header without dictionary id starts from the empty state whatever is registered (no_dict_without_id; later frames: C07 reuse_eq_fresh); offsets beyond dictionary+output and dictionary reach-back after more than a window of output are rejected. Reaching into the dictionary is byte-for-byte the RFC copy from dict++output for every buffer state, offset >= 1 and match length — inside the output (overlapping included), inside the dictionary, straddling the boundary at every alignment (repeat_eq_matchCopy, repeat_ok_matchCopy, repeat_accepts_iff, repeat_shape); the slice/chunk statements of the Rust code (extend_from_within, repeat_in_chunks, the re-entry with offset = buffer length) compute the same (repeat_eq_rust_statements); total_output_counter never over-counts, so the window test never refuses a reach-back the RFC allows (repeat_totalOut_le, totalOut_le_produced, dict_copy_of_valid_frame); a whole block's sequence execution refines the RFC executor with dictionary, window tests and offset history, in every buffer state that keeps two invariants which reset, every block and every drain-to-window preserve (executeSequences_refines_dict, invariants_reset, decodeOneBlock_keeps_invariants, invariants_drain_to_window). Tie to the code: engine dict (reference trainer dictionaries, libzstd dictionary frames with/without id, several dictionaries, synthetic frames straddling the dictionary boundary at every alignment; model replays every operation), engine reuse (dictionary leaks).",
+    level_text="Theorems on the decoder model for every frame header, dictionary registry and buffer state: a frame naming an unregistered dictionary is refused with DictNotProvided before any block is decoded (missing_dict_error); with the dictionary registered reset seeds exactly entropy tables, repeat offsets and content (init_from_dict_state); a header without dictionary id starts from the empty state whatever is registered (no_dict_without_id; later frames: C07 reuse_eq_fresh); offsets beyond dictionary+output and dictionary reach-back after more than a window of output are rejected. Reaching into the dictionary is byte-for-byte the RFC copy from dict++output for every buffer state, offset >= 1 and match length — inside the output (overlapping included), inside the dictionary, straddling the boundary at every alignment (repeat_eq_matchCopy, repeat_ok_matchCopy, repeat_accepts_iff, repeat_shape); the slice/chunk statements of the Rust code (extend_from_within, repeat_in_chunks, the re-entry with offset = buffer length) compute the same (repeat_eq_rust_statements); total_output_counter never over-counts, so the window test never refuses a reach-back the RFC allows (repeat_totalOut_le, totalOut_le_produced, dict_copy_of_valid_frame); a whole block's sequence execution refines the RFC executor with dictionary, window tests and offset history, in every buffer state that keeps two invariants which reset, every block and every drain-to-window preserve (executeSequences_refines_dict, invariants_reset, decodeOneBlock_keeps_invariants, invariants_drain_to_window). The dictionary parser of the executable model (Blk.decodeDict = Dictionary::decode_dict): every dictionary the Spec parses (§5) it parses to the same id, content, repeat offsets and coupled tables (parsed_dictionary_is_the_specs), so decoders whose dictionaries were registered through add_dict of parsed bytes need no coupling hypothesis in the dictionary forms of C01/C06/C08/C10 (parsed_dicts_coupled); on ANY bytes it never panics and returns only well-formed entropy states, whatever the three repeat offsets (hostile_dictionary_is_harmless). Tie to the code: engine dict (reference trainer dictionaries, libzstd dictionary frames with/without id, several dictionaries, synthetic frames straddling the dictionary boundary at every alignment; model replays every operation), engine reuse (dictionary leaks).",
     engines=[{"name": "dict"}, {"name": "reuse"}],
     also_reports={"dict": ["C01", "C06", "C08", "C10"]},
     modelled="dictionary selection (resetCore/applyDictChoice/forceDict) and DecodeBuffer::repeat_from_dict on the abstract buffer mirror the Rust; the dictionary FILE parser of the executable model is the mirror of Dictionary::decode_dict (Blk.decodeDict, Model/FrameFaithful.lean: same build_decoder functions as the block decoder, same leniencies), compared with the real one on every dictionary the engines register (adddict lines)",
@@ -75,7 +75,7 @@ prop(
 
 prop(
     "C01",
-    level_text="Refinement of the RFC 8878 transcription (Zstd.Spec, validated against libzstd on every run) by the model of the decoder, proved component by component for all inputs: block headers (all byte patterns; table and guard from the source), window descriptors (all descriptors; operators from the source), offset-history step = RFC rule for every offset value/history, offset values >= 1; code tables = RFC (C14), FSE (C12), Huffman (C13), sequence execution and the composed frame theorem as far as merged (C01_full stays visible; partial). BLOCK LEVEL on the faithful block decoder model (Model/BlockDecode.lean): decodeSequences_refines (full: every count encoding, Predefined/RLE/FSE_Compressed/Repeat per table, the interleaved three-state bitstream; tables left in the scratch stay coupled with the Spec's), literalsHeader_refines and decodeLiterals_refines_raw_rle (full), decodeLiterals_refines_huffman (full: Compressed and Treeless sections, tree description in direct and FSE-compressed form = Spec.Huffman.readWeights, table = canonical table (C13), one stream and four streams with the jump table = Spec.Huffman.decodeStream), blk_decodeLiterals_refines (decodeLiterals_refines_full is a theorem), blk_decompressBlock_refines (decompressBlock_refines_full is a theorem: for every block the RFC semantics decodes, decompress_block returns Ok, appends the same bytes, leaves the same offset history and a coupled entropy state for the next block); decompressBlock_refines_raw_rle / decompressBlock_refines_partial are kept as the intermediate statements. The executable model is replayed against the real decoder on libzstd frames of every level/window/flag/flush pattern, ruzstd frames, and synthetic frames using features no compressor emits on demand (all sequence-count encodings, repeat offsets in both literal-length cases, offsets at exactly the window distance, every header layout), under several drivers; oracles: original data, libzstd, reference executor.",
+    level_text="Refinement of the RFC 8878 transcription (Zstd.Spec, validated against libzstd on every run) by the model of the decoder, proved component by component for all inputs: block headers (all byte patterns; table and guard from the source), window descriptors (all descriptors; operators from the source), offset-history step = RFC rule for every offset value/history, offset values >= 1; code tables = RFC (C14), FSE (C12), Huffman (C13), sequence execution and the composed frame theorem: C01_full is PROVED over the EXECUTABLE model (DecB = frame-level model over the faithful block decoder; decoder_reproduces_content: for every byte string that is exactly one frame the Spec accepts (r.consumed = f.length), window within the decoder's limit, decode_all into any target at least as large as the content returns exactly the content, and reset + decode_blocks(All) + collect() report the frame finished and hand out exactly the content; with dictionaries registered through add_dict of parsed bytes: C01_full_dicts / decoder_reproduces_content_dicts, from decodeDict_refines — Dictionary::decode_dict parses every dictionary the Spec parses to the same id, content, repeat offsets and coupled Huffman/FSE tables; every drain schedule and every mix of decode_blocks / StreamingDecoder::read / decode_from_to: C06 schedule_independent_full). BLOCK LEVEL on the faithful block decoder model (Model/BlockDecode.lean): decodeSequences_refines (full: every count encoding, Predefined/RLE/FSE_Compressed/Repeat per table, the interleaved three-state bitstream; tables left in the scratch stay coupled with the Spec's), literalsHeader_refines and decodeLiterals_refines_raw_rle (full), decodeLiterals_refines_huffman (full: Compressed and Treeless sections, tree description in direct and FSE-compressed form = Spec.Huffman.readWeights, table = canonical table (C13), one stream and four streams with the jump table = Spec.Huffman.decodeStream), blk_decodeLiterals_refines (decodeLiterals_refines_full is a theorem), blk_decompressBlock_refines (decompressBlock_refines_full is a theorem: for every block the RFC semantics decodes, decompress_block returns Ok, appends the same bytes, leaves the same offset history and a coupled entropy state for the next block); decompressBlock_refines_raw_rle / decompressBlock_refines_partial are kept as the intermediate statements. The executable model is replayed against the real decoder on libzstd frames of every level/window/flag/flush pattern, ruzstd frames, and synthetic frames using features no compressor emits on demand (all sequence-count encodings, repeat offsets in both literal-length cases, offsets at exactly the window distance, every header layout), under several drivers; oracles: original data, libzstd, reference executor.",
     engines=[{"name": "spec"}, {"name": "dec"}, {"name": "hostile"}, {"name": "blk"}, {"name": "bits"}, {"name": "fse"}, {"name": "huf"}, {"name": "ring"}],
     # the decoder is only as right as its components: a wrong bit read, FSE/Huffman table or window copy found by a
     # component engine is a violation of C01 as well
@@ -86,7 +86,7 @@ prop(
 
 prop(
     "C03",
-    level_text="Every Rust panic site the frame-level model can reach is a Fault value; theorems (all inputs, all states): execute_sequences never faults because the only panic site (offset_value - 3 underflow) needs an offset value 0 which no decoded sequence carries (decodeSeqLoop_ov_pos, executeSequences_no_fault); frame-level no-fault/fuel theorems and the entropy-stage no-fault theorems (C12/C13) and the raw-pointer window (C04) complete the picture — C03_full stays visible; partial. BLOCK LEVEL, proved in full on the faithful block decoder model (Model/BlockDecode.lean, the one engine blk compares with the real code): decompressBlock_no_fault — for every byte string as block content, every well-formed entropy state (Blk.WF: FSE tables uninitialised or built, RLE symbols within the alphabets, Huffman table empty or built) and every buffer, decompress_block (literals header, Raw/RLE/Huffman literals in 1 or 4 streams incl. table build from direct or FSE-compressed weights, sequence header, table update in all four modes, the three-state sequence loop, sequence execution) returns a value or an error, never a Fault, and no loop runs out of fuel (termination); decompressBlock_keeps_WF, decompressBlock_err_state, scratch_new_WF, reset_reestablishes_WF, blockChain_no_fault, legal_history_no_fault (any number of frames on one scratch, each reset + blocks up to the first error). The clause (stop at the first error) is necessary: decompressBlock_no_fault_any_history_false with two concrete witnesses (a failed FSE / Huffman table build leaves accuracy_log / max_num_bits set over an empty table; FrameDecoder::decode_blocks called again after the Err panics in a Repeat-mode / Treeless block) — confirmed on the real FrameDecoder, outside the property's legal call sequences, reported as an observation. Tie to the code: engine hostile runs every decoding entry point (decode_blocks loops, StreamingDecoder, decode_all_to_vec, decode_from_to, Dictionary::decode_dict, decoding with hostile dictionaries) on the repo's fuzz artefacts, structure-aware hostile frames (one field broken on purpose per frame), mutated libzstd frames and random bytes under catch_unwind, a watchdog deadline and a counting allocator, then resets the same decoder and requires it to behave like a fresh one.",
+    level_text="Every Rust panic site the frame-level model can reach is a Fault value; theorems (all inputs, all states): execute_sequences never faults because the only panic site (offset_value - 3 underflow) needs an offset value 0 which no decoded sequence carries (decodeSeqLoop_ov_pos, executeSequences_no_fault); frame-level no-fault/fuel theorems and the entropy-stage no-fault theorems (C12/C13) and the raw-pointer window (C04) complete the picture — C03_full is PROVED over the EXECUTABLE model (no_fault_from_legal_states: from every decoder state reachable by a legal call sequence of the public API — Legal, Proofs/FrameLegal.lean: new, set_max_window_size, add_dict of ANY bytes decode_dict accepts, force_dict, reset/init, every drain, decode_blocks, decode_from_to, StreamingDecoder::read, decode_all, decode_all_to_vec, on any byte arguments — Dictionary::decode_dict, reset, decode_all and decode_all_to_vec never fault, and decode_blocks / decode_from_to / StreamingDecoder::read never fault unless the current frame's last decode call ended in err literals / err sequences (after which only drain, query, reset, decode_all are legal — necessary, see the witnesses below); dictionary parsing: decodeDict_no_fault / decodeDict_wf on ANY bytes, the three repeat offsets being copied unchecked is harmless (zero_history_is_harmless: do_offset_history saturates, execute_sequences rejects offset 0)). BLOCK LEVEL, proved in full on the faithful block decoder model (Model/BlockDecode.lean, the one engine blk compares with the real code): decompressBlock_no_fault — for every byte string as block content, every well-formed entropy state (Blk.WF: FSE tables uninitialised or built, RLE symbols within the alphabets, Huffman table empty or built) and every buffer, decompress_block (literals header, Raw/RLE/Huffman literals in 1 or 4 streams incl. table build from direct or FSE-compressed weights, sequence header, table update in all four modes, the three-state sequence loop, sequence execution) returns a value or an error, never a Fault, and no loop runs out of fuel (termination); decompressBlock_keeps_WF, decompressBlock_err_state, scratch_new_WF, reset_reestablishes_WF, blockChain_no_fault, legal_history_no_fault (any number of frames on one scratch, each reset + blocks up to the first error). The clause (stop at the first error) is necessary: decompressBlock_no_fault_any_history_false with two concrete witnesses (a failed FSE / Huffman table build leaves accuracy_log / max_num_bits set over an empty table; FrameDecoder::decode_blocks called again after the Err panics in a Repeat-mode / Treeless block) — confirmed on the real FrameDecoder, outside the property's legal call sequences, reported as an observation. Tie to the code: engine hostile runs every decoding entry point (decode_blocks loops, StreamingDecoder, decode_all_to_vec, decode_from_to, Dictionary::decode_dict, decoding with hostile dictionaries) on the repo's fuzz artefacts, structure-aware hostile frames (one field broken on purpose per frame), mutated libzstd frames and random bytes under catch_unwind, a watchdog deadline and a counting allocator, then resets the same decoder and requires it to behave like a fresh one.",
     engines=[{"name": "hostile"}, {"name": "dec"}, {"name": "blk"}],
     modelled="see C01; panics inside the entropy decoders are covered by C12/C13 models, raw memory by C04",
     assumptions=["wall-clock time is represented by fuel (loop iterations) in the theorems and by a watchdog deadline in the harness", "allocation failure aborts the process and is outside the model"],
@@ -234,7 +234,7 @@ prop(
 
 prop(
     "C06",
-    level_text="Theorems for all states, sink scripts, ring splits, sources and budgets (no bound): every drain path hands out exactly the first `written` buffered bytes and keeps exactly the rest, also when the sink stops early or fails (drainToSink_exact), the second ring segment is only offered after a complete first write; for total-budget sinks the outcome is independent of the ring split; unfinished frames retain the window under every drain; a match / a whole block's sequence execution appends the same bytes with or without already-drained bytes in front when offsets <= window <= retained (executeSequences_drop); decode_from_to reports exactly the counter advance, never more than it was given (F2 branch included); decode_blocks hands back exactly the unread suffix; schedule independence: a decoder drained in any way and its never-drained twin decode every block / every decode_blocks call / every decode_from_to chunk identically (twins again), StreamingDecoder::read is a program of decode_blocks+read calls; and for EVERY frame the Spec accepts and EVERY documented program of drain and decode_blocks calls: no call fails, delivered bytes (= hasher input) followed by buffered bytes are a prefix of the content, all of it once the last block is in, consumed = frame length, stored checksum = the frame's (valid_frame_any_schedule; model with the Spec's entropy decoders as stand-ins).",
+    level_text="Theorems for all states, sink scripts, ring splits, sources and budgets (no bound): every drain path hands out exactly the first `written` buffered bytes and keeps exactly the rest, also when the sink stops early or fails (drainToSink_exact), the second ring segment is only offered after a complete first write; for total-budget sinks the outcome is independent of the ring split; unfinished frames retain the window under every drain; a match / a whole block's sequence execution appends the same bytes with or without already-drained bytes in front when offsets <= window <= retained (executeSequences_drop); decode_from_to reports exactly the counter advance, never more than it was given (F2 branch included); decode_blocks hands back exactly the unread suffix; schedule independence: a decoder drained in any way and its never-drained twin decode every block / every decode_blocks call / every decode_from_to chunk identically (twins again), StreamingDecoder::read is a program of decode_blocks+read calls; and for EVERY frame the Spec accepts and EVERY documented program of drain and decode_blocks calls: no call fails, delivered bytes (= hasher input) followed by buffered bytes are a prefix of the content, all of it once the last block is in, consumed = frame length, stored checksum = the frame's (valid_frame_any_schedule); schedule_independent_full is PROVED over the EXECUTABLE model (schedule_independent_full_holds): the same for every documented program over the WHOLE driver grammar — drains, decode_blocks, StreamingDecoder::read and decode_from_to with ANY chunking (the caller advancing by the reported count), also for dictionaries registered from parsed bytes (schedule_independent_full_parsed_dicts); 'documented' excludes only decode_blocks (directly or through StreamingDecoder::read) after the last block is in — necessary: checksum_taken_for_a_block shows, on a valid frame and confirmed on the real decoder, that after a decode_from_to chunk ending right before the checksum decode_blocks takes the four checksum bytes for an RLE block and buffers garbage.",
     engines=[{"name": "dec"}, {"name": "hostile"}],
     modelled=_FRAME_MODELLED,
     assumptions=["a Write implementation never reports more bytes than it was given", "the ring's first segment is empty only if the ring is empty (C04)"],
@@ -250,7 +250,7 @@ prop(
 
 prop(
     "C10",
-    level_text="Theorems for all states, sources, strategies and cut points (no bound): exact-size reads; a block consumes exactly 3+content_size bytes; decode_blocks hands back exactly the unread suffix and counts exactly the consumed bytes (consumed_exact, from the frame header on); every strict prefix of a completed frame run ends in an error at a reader site (block header, body or checksum), never in a finished state, with the buffered bytes a prefix of the full run's (decodeBlocks_prefix); decode_all never writes past the target, reports a frame done only when finished and fully drained, fails on an undersized target, a truncated skippable frame and trailing garbage; frame boundaries are exact under appended data; decode_all over ANY list of valid frames and skippable frames returns the concatenated contents (decodeAll_concat, induction over the segment list); for every frame the Spec accepts every cut inside the header makes reset fail and every cut behind it makes decode_blocks(All) end in a reader error, unfinished, with the buffered bytes a prefix of the true content (valid_frame_prefix_errors); every loop's fuel suffices (termination).",
+    level_text="Theorems for all states, sources, strategies and cut points (no bound): exact-size reads; a block consumes exactly 3+content_size bytes; decode_blocks hands back exactly the unread suffix and counts exactly the consumed bytes (consumed_exact, from the frame header on); every strict prefix of a completed frame run ends in an error at a reader site (block header, body or checksum), never in a finished state, with the buffered bytes a prefix of the full run's (decodeBlocks_prefix); decode_all never writes past the target, reports a frame done only when finished and fully drained, fails on an undersized target, a truncated skippable frame and trailing garbage; frame boundaries are exact under appended data; decode_all over ANY list of valid frames and skippable frames returns the concatenated contents (decodeAll_concat, induction over the segment list); for every frame the Spec accepts every cut inside the header makes reset fail and every cut behind it makes decode_blocks(All) end in a reader error, unfinished, with the buffered bytes a prefix of the true content (valid_frame_prefix_errors); decode_all_to_vec (model Decoder.decodeAllToVec: resize to capacity, decode_all into the spare capacity, truncate back on BOTH paths; compared with the real function by engine dec, `dec allvec` lines): the vector is unchanged on every failure, its existing bytes are never touched, on success exactly the bytes decode_all reports are appended (never more than the spare capacity), any list of valid frames appends exactly the concatenated contents (decode_all_to_vec_unchanged_on_failure, _prefix_untouched, _appends_exactly, _concat); every loop's fuel suffices (termination).",
     engines=[{"name": "dec"}, {"name": "hostile"}],
     modelled=_FRAME_MODELLED,
     assumptions=["the source is a slice-like reader: read_exact either returns exactly n bytes or UnexpectedEof"],
